@@ -10,12 +10,20 @@ FRAGMENT = {
                'from exactly 42-byte heap buffers; sampling, not proof',
  'level_note': 'trusted: the IDL-A and PFC encoders (mine), the classification of blocks as must/may/must-not be delivered under faults (PFC: a block must be '
                'delivered when every page it touches is undamaged - resynchronisation at the next page header is accepted; IDL: the original copy arriving '
-               'intact must be delivered), clang sanitizers',
+               'intact must be delivered; a gap between consecutive deliveries demands VBI_IDL_DATA_LOST, the flag without a gap is accepted only when a '
+               'CRC-corrupted copy reached the demux in between), clang sanitizers.  PFC leniency: when the tail of a page, the next header and the '
+               'first packets of the next page up to exactly the expected packet number are all lost, the received continuity sequence has no gap '
+               '(PFC packets carry no page identity); blocks assembled from such spliced packets are unspecified and tolerated until the next header '
+               '(counter pfc_undetectable_splice, about 1 run in 15000)',
  'design_ref': 'DESIGN.md section 6 (C15)',
  'rule': 'one evaluation = one simulated run: 0-40 IDL packets of the selected address (with repeats), 0-28 PFC blocks (sizes 0-2047, every end alignment) '
-         'laid out into pages, foreign IDL/PFC sources and page noise, interleaved packet by packet by the seeded scheduler; faults attached to packets; '
+         'laid out into pages, foreign IDL/PFC sources and page noise, interleaved packet by packet by the seeded scheduler; faults attached to packets, '
+         'IDL also as per-copy fault patterns over a packet and its repeats (original fails its CRC and the announced repeats are lost, etc.); '
          'non-trivial = at least 3 deliveries and more than 10 task switches; distinct = distinct event-log hash',
- 'fault_kinds': ['fault_idl_drop', 'fault_idl_crc', 'fault_idl_ham2', 'fault_idl_ham1', 'fault_pfc_drop', 'fault_pfc_ham2', 'fault_pfc_ham1'],
+ 'fault_kinds': ['fault_idl_drop', 'fault_idl_crc', 'fault_idl_ham2', 'fault_idl_ham1', 'fault_pfc_drop', 'fault_pfc_ham2', 'fault_pfc_ham1',
+                 # compound shapes: a packet announcing a repeat failed its CRC / and the announced repeat never arrived /
+                 # and the next readable packet is a fresh one after an earlier delivery (data-lost flag demanded)
+                 'idl_crc_on_repeating_packet', 'idl_repeat_lost', 'idl_repeat_lost_then_fresh'],
  'components': {'real': ['src/idl_demux.c', 'src/pfc_demux.c', 'src/hamm.c'],
                 'stub': ['Teletext packet multiplexer = seeded scheduler over source tasks',
                          'IDL-A / PFC encoders',
